@@ -19,10 +19,12 @@ RULE = ("exhaustive: one record of every length 1..L at every line width 1..W (q
         "several chunks (many small records, several whole records per chunk), one FASTA larger than the reader's 5,000,000-byte "
         "chunk (several in thorough) indexed with the real default chunk size, string-encoded interval chromosomes whose label "
         "order/set differs from the file order, genome-encoded intervals with sort_names, results of successive fetches compared "
-        "only after all fetches are done. Non-trivial = an interval touching or crossing a line break, W = 1, a short last line, "
+        "only after all fetches are done; sessions of 2..8 calls on ONE open IndexedFasta (interval fetches whose first interval "
+        "starts exactly where the previous read stopped, whole-contig fetches, items()/values(), repeats), every result checked "
+        "right after its call and again after all later calls. Non-trivial = an interval touching or crossing a line break, W = 1, a short last line, "
         ">= 2 records or a description")
 EXHAUSTIVE = {"quick": True, "thorough": True}
-MODEL_OPS = {"index", "fetch", "contig", "genome", "index_chunked", "create_index"}
+MODEL_OPS = {"index", "fetch", "contig", "genome", "index_chunked", "create_index", "session"}
 PARALLEL = 0
 ASSUMPTIONS = [
     "the OS file is modelled as a byte list (seek/read = drop/take; readinto a zero-filled buffer); LF line ends only (CRLF FASTA is outside C17's quantifier)",
@@ -392,6 +394,10 @@ def cases(tier, rng):
             if rng.random() < 0.5:
                 r["h"] = rng.choice(["", " ", "  \t", " lead", "\tx", " a b", r["h"] + " ", "\x0b"])
         yield {"op": "create_index", "recs": recs}
+    # 2e. sessions: several calls on ONE open IndexedFasta, interval tiles that start exactly where the previous read ended
+    for _ in range(600 if big else 90):
+        recs = _rand_recs(rng, 24 if rng.random() < 0.7 else 60, 9, big_file=rng.random() < 0.3)
+        yield {"op": "session", "recs": recs, "steps": _session_steps(rng, recs)}
     # 3. random multi-record files
     for _ in range(1500 if big else 120):
         # one file in four is several hundred bytes long (offsets beyond one line / one small chunk)
@@ -414,6 +420,48 @@ def cases(tier, rng):
             yield {"op": "genome", "recs": recs, "sort_names": rng.random() < 0.5}
         if rng.random() < 0.6:
             yield {"op": "index_chunked", "recs": recs, "chunk": rng.choice([16, 24, 40, 64, 100, 200])}
+
+
+def _session_steps(rng, recs):
+    """a mix of interval fetches, whole-contig fetches (also through items()/values()) and repeats; an interval fetch often
+    starts exactly where the previous read on that object stopped (same contig: a = previous b; or base 0 of the next contig)"""
+    names = [name_of(r) for r in recs]
+    by = {name_of(r): r for r in recs}
+    steps, last = [], None            # last = (name, end) of the most recent read
+    for _ in range(rng.randint(2, 7)):
+        kind = rng.random()
+        if kind < 0.55:
+            ivs = []
+            for _ in range(rng.choice([1, 1, 2, 3])):
+                if last is not None and rng.random() < 0.7:
+                    nm, a = last
+                    if a >= len(by[nm]["seq"]):                      # previous read ended at the end of a contig
+                        nm, a = names[(names.index(nm) + 1) % len(names)], 0
+                else:
+                    nm = rng.choice(names)
+                    a = rng.randrange(len(by[nm]["seq"]))
+                n, w = len(by[nm]["seq"]), by[nm]["w"]
+                if a >= n:
+                    a = n - 1
+                cand = [a + 1, n] + [k for k in range(a + 1, n + 1) if k % w in (0, 1)]
+                b = rng.choice(cand) if rng.random() < 0.6 else rng.randint(a + 1, n)
+                ivs.append({"name": nm, "a": a, "b": b})
+                last = (nm, b)
+            steps.append({"k": "fetch", "ivs": ivs, "string": rng.random() < 0.5})
+        elif kind < 0.8:
+            nm = last[0] if (last is not None and rng.random() < 0.5) else rng.choice(names)
+            steps.append({"k": "contig", "name": nm})
+        elif kind < 0.88:
+            steps.append({"k": "items"})
+        elif kind < 0.94:
+            steps.append({"k": "values"})
+        else:
+            steps.append({"k": "lengths"})
+        if steps[-1]["k"] != "fetch" and rng.random() < 0.5:
+            pass                                                        # `last` is kept: the next tile starts at the old position
+    if rng.random() < 0.5 and steps:
+        steps.append(dict(steps[0]))                                    # a repeated call
+    return steps
 
 
 def _large_case(rng, n_recs, rec_len):
@@ -546,6 +594,32 @@ def _impl(c):
             if keys != [k for k, _ in lengths]:
                 return {"err": "keys-differ", "keys": keys}
             return {"rows": rows, "lengths": lengths, "fai": open(p + ".fai").read()}
+        if op == "session":
+            from bionumpy.encodings.string_encodings import StringEncoding
+            f = bnp.open_indexed(p)
+            live = []
+            for st in c["steps"]:
+                k = st["k"]
+                if k == "fetch":
+                    iv = Interval.from_entry_tuples([(x["name"], x["a"], x["b"]) for x in st["ivs"]])
+                    if st.get("string"):
+                        labels = sorted({x["name"] for x in st["ivs"]})
+                        iv = bnp.replace(iv, chromosome=bnp.as_encoded_array([x["name"] for x in st["ivs"]], StringEncoding(labels)))
+                    r = f.get_interval_sequences(iv)
+                    live.append((r, lambda v: [x.to_string() for x in v]))
+                elif k == "contig":
+                    live.append((f[st["name"]], lambda v: v.to_string()))
+                elif k == "items":
+                    live.append((list(f.items()), lambda v: [[n, x.to_string()] for n, x in v]))
+                elif k == "values":
+                    live.append((list(f.values()), lambda v: [x.to_string() for x in v]))
+                else:
+                    live.append((f.get_contig_lengths(), lambda v: [[n, int(x)] for n, x in v.items()]))
+                live[-1] = live[-1] + (live[-1][1](live[-1][0]),)      # what the result was right after the call
+            final = [fn(obj) for obj, fn, _ in live]                   # ... and what it is after all the later calls
+            if final != [first for _, _, first in live]:
+                return {"err": "result-changed-after-a-later-call", "final": final}
+            return final
         if op == "create_index":
             from bionumpy.io.indexed_fasta import create_index
             idx = create_index(p)
@@ -655,6 +729,23 @@ def oracle(c):
                 "whole": [[name_of(r), hashlib.sha1(r["seq"].encode()).hexdigest()] for r in big_recs[::2]], "size": size}
     if op == "index_chunked":
         return {"rows": true_index(recs)}
+    if op == "session":
+        out = []
+        for st in c["steps"]:
+            k = st["k"]
+            if k == "fetch":
+                if any(x["name"] not in by or not (0 <= x["a"] < x["b"] <= len(by[x["name"]]["seq"])) for x in st["ivs"]):
+                    return SKIP
+                out.append([by[x["name"]]["seq"][x["a"]:x["b"]] for x in st["ivs"]])
+            elif k == "contig":
+                out.append(by[st["name"]]["seq"])
+            elif k == "items":
+                out.append([[name_of(r), r["seq"]] for r in recs])
+            elif k == "values":
+                out.append([r["seq"] for r in recs])
+            else:
+                out.append([[name_of(r), len(r["seq"])] for r in recs])
+        return out
     if op == "contig":
         return [[name_of(r), r["seq"]] for r in recs]
     if op == "fetch":
@@ -721,6 +812,11 @@ def finding_key(c, got, exp):
         if all(gl[0] == el[0] and gl[1] == row[3] for gl, el, row in zip(got["lengths"], exp["lengths"], exp["rows"])):
             return "contig_lengths:bases-per-line"
         return "contig_lengths:wrong"
+    if op == "session":
+        if isinstance(got, dict) and got.get("err") == "result-changed-after-a-later-call":
+            return "session:result-changed-after-a-later-call"
+        bad = [st["k"] for st, g, e in zip(c["steps"], got, exp) if g != e] if isinstance(got, list) and len(got) == len(exp) else ["?"]
+        return "session:wrong-" + (bad[0] if bad else "result")
     if op == "index_large":
         return "index_large:" + ("wrong-row" if isinstance(got, dict) and got.get("rows") != exp["rows"] else "wrong-fetch")
     if op == "genome":
